@@ -317,6 +317,97 @@ func ruleR071(c *Ctx) {
 			}
 		}
 	})
+	// (d) an error that was found to be non-nil is not ignored afterwards
+	optDecls := map[*ast.FuncDecl]bool{}
+	if ods, _ := c.optimizerMethods(); ods != nil {
+		for _, od := range ods {
+			optDecls[od] = true
+		}
+	}
+	forEachFuncBody(builtinPkgs(c), func(pkg *packages.Package, fn ast.Node, body *ast.BlockStmt) {
+		info := pkg.TypesInfo
+		fname := c.FuncName(fn) + litSuffix(c, fn)
+		k := 0
+		inspectNoLit(body, func(x ast.Node) bool {
+			ifs, ok := x.(*ast.IfStmt)
+			if !ok {
+				return true
+			}
+			be, ok := ast.Unparen(ifs.Cond).(*ast.BinaryExpr)
+			if !ok || be.Op != token.NEQ {
+				return true
+			}
+			id, ok := ast.Unparen(be.X).(*ast.Ident)
+			if !ok || !isErrorType(info.TypeOf(id)) {
+				return true
+			}
+			if y, ok := ast.Unparen(be.Y).(*ast.Ident); !ok || y.Name != "nil" {
+				return true
+			}
+			obj := info.ObjectOf(id)
+			if obj == nil || obj.Pos() < fn.Pos() || obj.Pos() > fn.End() {
+				return true // a captured error sink: the error is already recorded there (checked as error-sink above)
+			}
+			if fd := c.EnclosingDecl(ifs); fd != nil && optDecls[fd] {
+				return true // the optimizer: an error while folding means "do not fold", the error occurs again at run time
+			}
+			k++
+			key := fmt.Sprintf("%s#non-nil-branch:%s[%d]", fname, id.Name, k)
+			handled := false
+			ast.Inspect(ifs.Body, func(y ast.Node) bool {
+				if handled {
+					return false
+				}
+				switch t := y.(type) {
+				case *ast.ReturnStmt:
+					// returns some error
+					if len(t.Results) > 0 {
+						last := ast.Unparen(t.Results[len(t.Results)-1])
+						if lid, ok := last.(*ast.Ident); !ok || lid.Name != "nil" {
+							if isErrorType(info.TypeOf(last)) || mentions(info, t, obj) {
+								handled = true
+							}
+						}
+					} else {
+						handled = true // bare return with named results
+					}
+				case *ast.Ident:
+					if info.ObjectOf(t) == obj && info.Defs[t] == nil {
+						// a use as a value (not a further comparison with nil)
+						if pb, ok := c.Parent(t).(*ast.BinaryExpr); ok && (pb.Op == token.NEQ || pb.Op == token.EQL) {
+							return true
+						}
+						handled = true
+					}
+				case *ast.CallExpr:
+					if noReturn(info, t) {
+						handled = true
+					}
+				}
+				return true
+			})
+			if !handled {
+				// break out of a loop, the error is examined behind the loop
+				if containsNode(ifs.Body, func(y ast.Node) bool { b, ok := y.(*ast.BranchStmt); return ok && b.Tok == token.BREAK }) {
+					if loop := enclosingLoop(c, ifs, fn); loop != nil {
+						ast.Inspect(body, func(y ast.Node) bool {
+							if uid, ok := y.(*ast.Ident); ok && uid.Pos() > loop.End() && info.ObjectOf(uid) == obj {
+								handled = true
+							}
+							return !handled
+						})
+					}
+				}
+			}
+			if handled {
+				c.OK(key, ifs.Pos(), "on the branch where %s is non-nil the error is returned, recorded or passed on", id.Name)
+			} else {
+				c.Violation(key, ifs.Pos(), "the error %s is compared with nil, but on the non-nil branch it is neither returned, recorded nor passed on: the failure is swallowed (e.g. a failing list element is skipped)", id.Name)
+			}
+			return true
+		})
+		n += k
+	})
 	if n < 100 {
 		c.Undecided("value#error-definitions", token.NoPos, "only %d error producing sites found", n)
 	}
